@@ -4,7 +4,7 @@ PROP = {
     "id": "C15",
     "level": "fault_enumeration",
     "technique": ("generated fault schedules against the real crawl-HQ producer/finisher/consumer goroutines under virtual time (testing/synctest) with an in-memory fake HQ as http.RoundTripper; "
-                  "model-based stateful testing (rapid) of the local-queue client against real sqlite files; the real local-queue goroutines around real sqlite under virtual time"),
+                  "model-based stateful testing (rapid) of the local-queue client against real sqlite files; the real local-queue goroutines around real sqlite under virtual time; the outlink items themselves (via, hops) as the real postprocessor builds them, differentially against the reference crawler of the simulated-network pipeline harness"),
     "level_text": ("HQ side: the real hq.producer(), finisher() and consumer() goroutines run in a synctest bubble around a gocrawlhq.Client (built as gocrawlhq.Init builds it, 5 s timeout, no websocket) whose "
                    "transport is a fake crawl HQ holding the reference server state (rows fresh/claimed/deleted, every Add entry it processed, every id it answered 204 for). Each POST/DELETE/GET /urls call "
                    "is answered by the next entry of a generated per-endpoint fault schedule: ok, slow (3 s), 500/502/503/504, connection reset, no answer until the client's timeout, answer lost after the "
@@ -52,3 +52,10 @@ PROP = {
          "facets": ["C15/lq-pipeline"], "checks": (300, 1200), "shards": (4, 16), "timeout": (600, 3000)},
     ],
 }
+
+# the outlink items themselves (via = parent canonical URL, hops = parent + 1, for links from anchors, Link headers and
+# JSON documents) are built by the postprocessor: that end is observed in the simulated-network pipeline harness
+import os, importlib.util
+_spec = importlib.util.spec_from_file_location("c01", os.path.join(os.path.dirname(os.path.abspath(__file__)), "C01.py"))
+_m = importlib.util.module_from_spec(_spec); _spec.loader.exec_module(_m)
+PROP["units"].append(dict(_m.SIM_UNIT))
